@@ -23,7 +23,7 @@ PLAIN = "abcdefghijklmnopqrstuvwxyzABCDEFGHIJKLMNOPQRSTUVWXYZ0123456789"
 # (East-Asian wide characters are not typed: lineread 0.7.2 -- a dependency, outside the repository --
 # panics on them in builds with overflow checks; multi-byte coverage uses single-width characters)
 HOSTILE = ["%", "_", "--", ")", ",", "ü", "ñ", "é", "%%", "\\\\", "=", "@", "+", ".", "/"]
-DIRS = ["plain", "it's", "100%", "a_b", "semi;colon", "par)en", "sp ace", "dash--dash", "ünï", "q\"uote"]
+DIRS = ["plain", "it's", "100%", "a_b", "semi;colon", "par)en", "sp ace", "dash--dash", "ünï", "q\"uote", "back\\slash"]
 
 
 def gen_word(rng, n=None, hostile=40):
@@ -127,6 +127,9 @@ def gen_scenario(rng, cfg):
             ops.append({"op": "kill", "shell": sh, "at": rng.choice(["prompt", "done"])})
         elif r < 96:
             ops.append({"op": "rmdb"})
+        elif r < 97:
+            k += 1
+            ops.append({"op": "locked", "shell": sh, "text": gen_line(rng, k)})
         else:
             ops.append({"op": "clock", "jump": rng.choice([1e-6, 0.5, 3600.0, 86400.0 * 30])})
     return {"prop": "C18", "ops": ops, "dedup": bool(cfg.get("dedup")), "lines": []}
@@ -464,6 +467,48 @@ class C18Runner:
                 self.to_prompt(sh, first=True)
                 self.model_dedupe()
                 self.sim.probe("second_or_third_shell_on_the_same_database")
+            return
+        if k == "locked":
+            # fault: another process holds the write lock of the database for a moment (a quarter of a
+            # second of real time; sqlite's busy handler of the recording shell has to ride it out)
+            if not os.path.exists(self.hfile):
+                return
+            sh = self.shell_for(op["shell"])
+            if sh.prev == op["text"]:
+                return
+            con = sqlite3.connect(self.hfile, timeout=5, isolation_level=None)
+            try:
+                con.execute("BEGIN IMMEDIATE")
+            except sqlite3.OperationalError:
+                con.close()
+                return
+            release_at = time.time() + 0.25
+            state = {"held": True}
+            old_cb = sh.sim.idle_cb
+
+            def cb():
+                if old_cb:
+                    old_cb()
+                if state["held"] and time.time() >= release_at:
+                    state["held"] = False
+                    con.execute("COMMIT")
+                    con.close()
+            sh.sim.idle_cb = cb
+            self.ev("type-while-locked", sh.idx, op["text"])
+            self.sim.fault("database_write_locked_by_another_process")
+            tsb_guess = self.clock + 1e-3
+            try:
+                self.type_and_run(sh, op["text"])
+            finally:
+                sh.sim.idle_cb = old_cb
+                if state["held"]:
+                    state["held"] = False
+                    con.execute("COMMIT")
+                    con.close()
+            self.add_row(op["text"], tsb_guess, cwd=sh.cwd)
+            sh.prev = op["text"]
+            sh.unrecorded_since = False
+            self.check_db("recording while another process held the write lock")
             return
         if k == "rmdb":
             # fault: the history file disappears while shells are running; what was in it is gone,
